@@ -7,6 +7,7 @@ import Nsq.Model.AggregateWire
 import Nsq.Gen.AdminRoutes
 import Nsq.Model.Fetch
 import Nsq.Model.Latency
+import Nsq.Model.ViewOrder
 /-! Driver for engine E7 (nsqadmin): one operation per input line, one canonical answer line out.
 
   routes                      → the regenerated route table, `METHOD /path handler;…`
@@ -181,7 +182,7 @@ def getv1 (toks : List String) : String :=
     let tls := (r.2.filter (fun e => e.https && e.port == 2)).length
     (if r.1 == .ok then "ok" else "failed") ++ s!" {plain} {tls}"
 
-/-- `lat <fresh|first> <k> <p:…> × k`: the shape of the latency aggregate (`Nsq.Model.Latency`, tree with F24). -/
+/-- `lat <fresh|first> <k> <p:…> × k`: the shape of the latency aggregate (`Nsq.Model.Latency`, tree with F53). -/
 def lat (toks : List String) : String :=
   match toks with
   | start :: _ :: docs =>
@@ -204,6 +205,15 @@ def lat (toks : List String) : String :=
         | .ok l => if dec.isEmpty then "ok nil" else "ok " ++ render l
   | _ => "bad-op"
 
+/-- `less host <a> <b>` | `less topo <node regionOfNode zoneOfNode region zone> × 2`: the comparators. -/
+def less (toks : List String) : String :=
+  let u (t : String) : String := if t == "-" then "" else t
+  match toks with
+  | ["host", a, b] => if Nsq.Model.ViewOrder.hostLess (u a) (u b) then "1" else "0"
+  | ["topo", n1, nr1, nz1, r1, z1, n2, nr2, nz2, r2, z2] =>
+    if Nsq.Model.ViewOrder.topoLess ⟨u n1, u nr1, u nz1, u r1, u z1⟩ ⟨u n2, u nr2, u nz2, u r2, u z2⟩ then "1" else "0"
+  | _ => "bad-op"
+
 end E7
 
 def stepLine (line : String) : String :=
@@ -214,6 +224,7 @@ def stepLine (line : String) : String :=
   | "fan" :: toks => E7.fan toks
   | "getv1" :: toks => E7.getv1 toks
   | "lat" :: toks => E7.lat toks
+  | "less" :: toks => E7.less toks
   | _ => "bad-op"
 
 partial def loop (h : IO.FS.Stream) (out : IO.FS.Stream) : IO Unit := do
